@@ -16,6 +16,7 @@ func init() {
 	zzsv.Register("ZZ_C19_Sandwich", ZZ_C19_Sandwich)
 	zzsv.Register("ZZ_C19_LargePrograms", ZZ_C19_LargePrograms)
 	zzsv.Register("ZZ_C19_EqualObjects", ZZ_C19_EqualObjects)
+	zzsv.Register("ZZ_C19_HostMapKeys", ZZ_C19_HostMapKeys)
 	zzsv.Register("ZZ_C19_MapOrder", ZZ_C19_MapOrder)
 }
 
@@ -357,4 +358,62 @@ func ZZ_C19_EqualObjects(sv *zzsv.T) {
 			sv.Assert("C19.equalobjects.same_call_args", tr1[i].Type() == tr2[i].Type() && tr1[i].Inspect() == tr2[i].Inspect())
 		}
 	}
+}
+
+type zzC19Meta struct {
+	Name string
+	Meta map[interface{}]interface{}
+	Num  map[string]interface{}
+}
+
+// ZZ_C19_HostMapKeys: host maps whose keys are distinct for the host but
+// may coincide once converted (int 1 and int64 1, float32 0.5 and float64
+// 0.5, a key and its printed form): whatever the conversion does with them,
+// it does the same under every iteration order of the host's maps - same
+// result or same failure, same printed forms.
+func ZZ_C19_HostMapKeys(sv *zzsv.T) {
+	tries := 1
+	if !sv.Symbolic() {
+		tries = 100
+	}
+	for i := 0; i < tries; i++ {
+		zzC19HostMapKeys(sv)
+		if sv.Failed() || i+1 == tries {
+			return
+		}
+		sv.ResetLog()
+	}
+}
+
+func zzC19HostMapKeys(sv *zzsv.T) {
+	scripts := []string{"return Meta[1];", "return string(Meta);", "r = \"\"; foreach k, v in Meta { r = r + string(v); } return r;", "return keys(Meta);", "return string(Num) + Name;", "return len(Meta);"}
+	src := scripts[sv.Choice("script", len(scripts))]
+	sv.Note("script", src)
+	mk := func() *zzC19Meta {
+		return &zzC19Meta{Name: "n",
+			Meta: map[interface{}]interface{}{int(1): "from-int", int64(1): "from-int64", float32(0.5): "f32", float64(0.5): "f64", "1": "from-string"},
+			Num:  map[string]interface{}{"a": int64(1), "b": []interface{}{int(2), int64(2)}}}
+	}
+	run := func(nondet bool) (string, bool) {
+		sv.MapOrderNondet(nondet)
+		defer sv.MapOrderNondet(false)
+		e := New(src)
+		if e.Prepare() != nil {
+			return "", true
+		}
+		var out object.Object
+		var err error
+		if !zzNoPanic(func() { out, err = e.Execute(mk()) }) {
+			return "panic", true
+		}
+		if err != nil || out == nil {
+			return "", true
+		}
+		return string(out.Type()) + ":" + out.Inspect(), false
+	}
+	r1, f1 := run(false)
+	r2, f2 := run(true)
+	sv.Observe("failed", f1, f2)
+	sv.Assert("C19.hostmapkeys.same_failure", f1 == f2)
+	sv.Assert("C19.hostmapkeys.same_result", r1 == r2)
 }
